@@ -246,7 +246,6 @@ func (x *Exec) contractError(err error) {
 }
 
 func (x *Exec) applyContract(fr *Frame, st *State, c *Contract, key string, recv SVal, args []SVal, sig *types.Signature, pos token.Pos, k func(*State, SVal)) {
-	tb := x.tb
 	pre := st.Clone()
 	// requires
 	ecPre := x.evalCtxFor(c, st, st, recv, args, sig, nil, true)
@@ -284,17 +283,48 @@ func (x *Exec) applyContract(fr *Frame, st *State, c *Contract, key string, recv
 			}
 		}
 	}
-	// alias directives
-	ec := x.evalCtxFor(c, st, pre, recv, args, sig, results, false)
-	for _, cl := range c.ByKind("alias") {
-		cl := cl
-		if err := x.guard(fmt.Sprintf("%s:%d alias", cl.File, cl.Line), func() {
-			x.applyAlias(st, ec, cl)
-		}); err != nil {
+	// alias directives (conditional ones fork the path)
+	aliases := c.ByKind("alias")
+	x.applyAliases(fr, st, pre, c, aliases, 0, recv, args, sig, results, ecPre, k)
+}
+
+func (x *Exec) applyAliases(fr *Frame, st, pre *State, c *Contract, aliases []*Clause, i int, recv SVal, args []SVal, sig *types.Signature, results []SVal, ecPre *EvalCtx, k func(*State, SVal)) {
+	tb := x.tb
+	if i < len(aliases) {
+		cl := aliases[i]
+		ec := x.evalCtxFor(c, st, pre, recv, args, sig, results, false)
+		if cl.Expr == nil {
+			if err := x.guard(fmt.Sprintf("%s:%d alias", cl.File, cl.Line), func() { x.applyAlias(st, ec, cl) }); err != nil {
+				x.contractError(err)
+				return
+			}
+			x.applyAliases(fr, st, pre, c, aliases, i+1, recv, args, sig, results, ecPre, k)
+			return
+		}
+		var cond *Term
+		if err := x.guard(fmt.Sprintf("%s:%d alias condition", cl.File, cl.Line), func() { cond = ec.Bool(cl.Expr) }); err != nil {
 			x.contractError(err)
 			return
 		}
+		// results are shared values: copy them for the aliased branch
+		if !cond.IsFalse() {
+			st2 := st.Clone()
+			res2 := cloneResults(results)
+			st2.Assume(cond)
+			ec2 := x.evalCtxFor(c, st2, pre, recv, args, sig, res2, false)
+			if err := x.guard(fmt.Sprintf("%s:%d alias", cl.File, cl.Line), func() { x.applyAlias(st2, ec2, cl) }); err != nil {
+				x.contractError(err)
+				return
+			}
+			x.applyAliases(fr, st2, pre, c, aliases, i+1, recv, args, sig, res2, ecPre, k)
+		}
+		if !cond.IsTrue() {
+			st.Assume(tb.Not(cond))
+			x.applyAliases(fr, st, pre, c, aliases, i+1, recv, args, sig, results, ecPre, k)
+		}
+		return
 	}
+	ec := x.evalCtxFor(c, st, pre, recv, args, sig, results, false)
 	// ensures (all labels: each is proved under its own property)
 	for _, cl := range c.ByKind("ensures") {
 		cl := cl
@@ -319,6 +349,19 @@ func (x *Exec) applyContract(fr *Frame, st *State, c *Contract, key string, recv
 	default:
 		k(st, &TupleV{Vals: results})
 	}
+}
+
+func cloneResults(rs []SVal) []SVal {
+	out := make([]SVal, len(rs))
+	for i, r := range rs {
+		if s, ok := r.(*SliceV); ok {
+			c := *s
+			out[i] = &c
+		} else {
+			out[i] = r
+		}
+	}
+	return out
 }
 
 func shortKey(k string) string {
